@@ -17,8 +17,8 @@ import (
 
 func TestC10(t *testing.T) {
 	rec := ev.Get("C10")
-	rec.Rule("per case a synctest bubble: hello delivery plan (already buffered, or k chunks arriving at drawn virtual times), context kind (WithCancel / WithTimeout / WithDeadline / cancelled parent), cancellation slot relative to the hello's completion (while blocked, exactly at completion, immediately after NewConn returned, return+epsilon, expiry after return, never), GOMAXPROCS in {1,2,4,8,16}, optional caller deadline on the transport; in the 'while blocked' slot the peer may not be reading, so that a write without a deadline would block forever. After the return the case cancels, calls synctest.Wait() so the watcher goroutine has certainly run, then inspects the transport log and performs I/O, in half of the cases including a HelloRetryRequest round whose retried hello arrives a virtual second later. distinct = (plan, kind, slot, GOMAXPROCS); non-trivial = the context ends within the case")
-	rec.Mandatory("slot:blocked", "slot:after_return_now", "slot:after_return_eps", "slot:expire_after", "slot:never", "slot:at_completion", "buffered", "late", "gomaxprocs1", "gomaxprocs16", "hrr_after_context_end", "blocked_and_peer_not_reading")
+	rec.Rule("per case a synctest bubble (in a third of the cases after two earlier connections of the same process whose NewConn timed out while blocked): hello delivery plan (already buffered, or k chunks arriving at drawn virtual times), context kind (WithCancel / WithTimeout / WithDeadline / cancelled parent), cancellation slot relative to the hello's completion (while blocked, exactly at completion, immediately after NewConn returned, return+epsilon, expiry after return, never), GOMAXPROCS in {1,2,4,8,16}, optional caller deadline on the transport; in the 'while blocked' slot the peer may not be reading, so that a write without a deadline would block forever. After the return the case cancels, calls synctest.Wait() so the watcher goroutine has certainly run, then inspects the transport log and performs I/O, in half of the cases including a HelloRetryRequest round whose retried hello arrives a virtual second later. distinct = (plan, kind, slot, GOMAXPROCS); non-trivial = the context ends within the case")
+	rec.Mandatory("slot:blocked", "slot:after_return_now", "slot:after_return_eps", "slot:expire_after", "slot:never", "slot:at_completion", "buffered", "late", "gomaxprocs1", "gomaxprocs16", "hrr_after_context_end", "blocked_and_peer_not_reading", "after_timed_out_predecessors")
 	defer runtime.GOMAXPROCS(runtime.GOMAXPROCS(0))
 	rapid.Check(t, func(rt *rapid.T) {
 		sc := drawSealed(rt, false)
@@ -71,6 +71,9 @@ func TestC10(t *testing.T) {
 		// while NewConn is blocked the peer may not be reading either (it only writes its
 		// hello, slowly): anything NewConn writes then blocks until a write deadline
 		peerNotReading := slot == "blocked" && rapid.Bool().Draw(rt, "peer_not_reading")
+		// connections do not share anything: an earlier NewConn of the same process whose
+		// context ended while it was blocked (an ordinary handshake timeout) changes nothing
+		predecessor := rapid.IntRange(0, 2).Draw(rt, "predecessor_timed_out") == 0
 		// later I/O may include a HelloRetryRequest round: the retried hello is read and
 		// decrypted long after the context has ended
 		withHRR := rapid.Bool().Draw(rt, "with_hrr")
@@ -89,10 +92,23 @@ func TestC10(t *testing.T) {
 		var viol string
 		watch("C10", map[string]any{"keys": keysReplay([]*hello.Key{sc.Key}), "client_stream": hx(record), "slot": slot, "kind": kind}, func() {
 			synctest.Test(t, func(t *testing.T) {
-				start := time.Now()
 				// helper goroutines (feeder, cancel timers) must have finished
 				// before the bubble's root function returns
 				defer time.Sleep(time.Hour)
+				if predecessor {
+					for i := 0; i < 2; i++ {
+						ctx0, cancel0 := context.WithTimeout(context.Background(), time.Duration(i+1)*time.Millisecond)
+						tr0 := wire.New(record[:min(len(record), 3*i)], nil)
+						_, e0 := newConn(ctx0, tr0, echKeys(sc.Key))
+						cancel0()
+						if e0 == nil || isPanic(e0) {
+							viol = fmt.Sprintf("predecessor connection: NewConn on a stalled client returned %v", e0)
+							return
+						}
+					}
+					synctest.Wait()
+				}
+				start := time.Now()
 				var tr *wire.Conn
 				if nchunks == 0 {
 					tr = wire.New(record, nil)
@@ -256,6 +272,9 @@ func TestC10(t *testing.T) {
 		}
 		if peerNotReading {
 			rec.Class("blocked_and_peer_not_reading")
+		}
+		if predecessor {
+			rec.Class("after_timed_out_predecessors")
 		}
 		cl := []string{"slot:" + slot, "kind:" + kind, fmt.Sprintf("gomaxprocs%d", procs)}
 		if nchunks == 0 {
